@@ -107,7 +107,7 @@ def load_known():
 def run_property(prop, tier, seed=0):
     t0 = time.time()
     ctx = Ctx(prop, tier)
-    rep_dir = os.path.join(VERIF, 'reports', prop)
+    rep_dir = os.path.join(os.environ.get('ORV_REPORTS') or os.path.join(VERIF, 'reports'), prop)
     shutil.rmtree(rep_dir, ignore_errors=True)
     status = 0
     broken_msg = None
@@ -126,6 +126,17 @@ def run_property(prop, tier, seed=0):
         status = 2
         broken_msg = 'internal error in checker:\n' + traceback.format_exc()
 
+    selftest = None
+    if tier == 'thorough' and 'ORV_REPO' not in os.environ and status != 2:
+        # seeded variants of this property's rules (DESIGN 5): parsed in scratch worktrees, never built or run
+        from . import selftest as st
+        res = st.run([prop], jobs=12)
+        selftest = {'variants': len(res), 'caught': sum(1 for r in res if r['status'] == 'caught'),
+                    'results': [{'variant': r['variant'], 'rule': r.get('rule'), 'status': r['status']} for r in res]}
+        bad = [r for r in res if r['status'] != 'caught']
+        if bad:
+            status = 2
+            broken_msg = 'seeded-variant self-test: %d variant(s) not reported by their rule: %s' % (len(bad), '; '.join('%s [%s]' % (r['variant'], r['status']) for r in bad))
     known = [k for k in load_known() if k.get('property') == prop]
     known_keys = {json.dumps(k['key']): k for k in known if k.get('status') == 'known'}
     new, listed = [], []
@@ -134,8 +145,8 @@ def run_property(prop, tier, seed=0):
     for f in listed:
         kf = known_keys[json.dumps(f.key)]
         print('KNOWN-FINDING: property=%s %s [%s @ %s] %s' % (prop, kf.get('what', f.what), f.rule, f.loc, f.what))
-    if new and status == 0:
-        status = 1
+    if new:
+        status = 1      # a finding bound to a concrete construct stands even if a later anchor could not be analysed
     if new:
         os.makedirs(rep_dir, exist_ok=True)
     for i, f in enumerate(new):
@@ -146,7 +157,7 @@ def run_property(prop, tier, seed=0):
             f.loc, f.rule, f.what, f.construct, f.expect,
             ''.join('\n    via: ' + s for s in f.path[:12])))
         print('VIOLATION property=%s replay=%s' % (prop, p))
-    if status == 2:
+    if broken_msg:
         print('ANALYSIS-BROKEN property=%s: %s' % (prop, broken_msg))
 
     # ---- evidence
@@ -194,11 +205,14 @@ def run_property(prop, tier, seed=0):
         'status': {0: 'held', 1: 'violation', 2: 'analysis-broken'}[status],
     }
     ev['coverage'].update(ctx.extra)
+    if selftest is not None:
+        ev['coverage']['seeded_variant_selftest'] = selftest
     if broken_msg:
         ev['coverage']['broken'] = broken_msg
-    os.makedirs(os.path.join(VERIF, 'evidence'), exist_ok=True)
-    with open(os.path.join(VERIF, 'evidence', prop + '.json'), 'w') as fh:
-        json.dump(ev, fh, indent=1, default=str)
+    if not os.environ.get('ORV_NO_EVIDENCE'):
+        os.makedirs(os.path.join(VERIF, 'evidence'), exist_ok=True)
+        with open(os.path.join(VERIF, 'evidence', prop + '.json'), 'w') as fh:
+            json.dump(ev, fh, indent=1, default=str)
     print('%s %s: %d rules, %d instances (%d evaluations) in %d configuration(s), %d finding(s) (%d known) -> exit %d [%.1fs]' % (
         prop, tier, len(ctx.rules), n_inst, ctx.evaluations, len(ctx.configs_used), len(ctx.findings), len(listed), status,
         time.time() - t0))
